@@ -53,6 +53,7 @@ def gen_switch_device(rng):
 
 def generate(seed, tier, index):
     rng = random.Random(seed)
+    G.SPICY_NAMES[0] = False
     thorough = tier == "thorough"
     spec = gen_switch_device(rng)
     vecs = list(spec["levels"][0]["groups"]["g0"]["vectors"].values())
